@@ -47,7 +47,8 @@ fn classify(bt: &str) -> (bool, String) {
             .filter(|n| n.starts_with("at "))
             .map(|n| n[3..].to_string())
             .unwrap_or_default();
-        if sym.contains("pmverif::obs") {
+        // the panic hook's own frames (this file) are not evidence of anything
+        if sym.contains("pmverif::obs") || at.contains("src/obs.rs") {
             continue;
         }
         // Source paths decide (a library generic instantiated with a harness stream type carries both
